@@ -6,6 +6,7 @@ import (
 	"go/parser"
 	"go/token"
 	"path/filepath"
+	"sort"
 
 	"github.com/bmatcuk/doublestar/v4"
 	MapSet "github.com/deckarep/golang-set/v2"
@@ -48,11 +49,19 @@ func (facade *PackagesFacade) FSet() *token.FileSet {
 }
 
 func (facade *PackagesFacade) GetAllSourceFiles() []*ast.File {
-	result := make([]*ast.File, 0, len(facade.files))
-	for _, file := range facade.files {
-		result = append(result, file)
+	// Map iteration order is random; everything downstream (controller discovery, the order of a
+	// controller's receivers, import serials) must not depend on it, so enumerate by file name
+	fileNames := make([]string, 0, len(facade.files))
+	for fileName := range facade.files {
+		fileNames = append(fileNames, fileName)
 	}
-	result = verifhook.Permute("GetAllSourceFiles", result)
+	fileNames = verifhook.Permute("GetAllSourceFiles", fileNames)
+	sort.Strings(fileNames)
+
+	result := make([]*ast.File, 0, len(facade.files))
+	for _, fileName := range fileNames {
+		result = append(result, facade.files[fileName])
+	}
 	return result
 }
 
